@@ -1,9 +1,10 @@
 #!/usr/bin/env python3
-"""save_seed.py <PROP> <n> <needs-text> : copy a confirmed seeded change from /tmp/wt/<PROP>-out into /verif/seeded/<PROP>-<n>/"""
+"""save_seed.py <PROP> <n> <needs-text> [<dest-n>] : copy a confirmed seeded change from /tmp/wt/<PROP>-out into /verif/seeded/<PROP>-<n>/"""
 import json, os, re, shutil, sys
 P, N, needs = sys.argv[1], sys.argv[2], sys.argv[3]
 src = '/tmp/wt/%s-out' % P
-dst = '/verif/seeded/%s-%s' % (P, N)
+D = sys.argv[4] if len(sys.argv) > 4 else N
+dst = '/verif/seeded/%s-%s' % (P, D)
 os.makedirs(dst, exist_ok=True)
 shutil.copy(os.path.join(src, 'patch%s.diff' % N), os.path.join(dst, 'patch.diff'))
 shutil.copy(os.path.join(src, 'demo%s.cpp' % N), os.path.join(dst, 'demo.cpp'))
@@ -11,7 +12,7 @@ log = open(os.path.join(src, 'confirm%s.log' % N)).read()
 suite = re.findall(r'\d+% tests passed, \d+ tests failed out of \d+', log)
 summ = re.findall(r'^CONFIRM-SUMMARY: (.*)$', log, flags=re.M)
 files = re.findall(r'^\+\+\+ b/(.*)$', open(os.path.join(dst, 'patch.diff')).read(), flags=re.M)
-meta = dict(property=P, change=int(N), files=files, needs_to_manifest=needs,
+meta = dict(property=P, change=int(D), files=files, needs_to_manifest=needs,
             origin='written by an independent sub-agent that saw only the property text and a scratch worktree',
             confirmed=dict(how='tools/confirm_seed.sh %s %s in the scratch worktree /tmp/wt/%s: build demo on clean tree and run (must pass), apply patch, rebuild library and tests, ctest, run demo (must fail), revert' % (P, N, P),
                            test_suite_with_change=suite[0] if suite else None, demo=summ[0] if summ else None))
